@@ -175,3 +175,12 @@ Proof.
   intros implements errty fields_of es l H. destruct (parse_shape _ _ _ _ _ H) as (l0 & _ & S & L). exists l0. split; assumption.
 Qed.
 Print Assumptions C02_one_provider_per_expression.
+
+(* Bind over a Struct expansion: the interfaces go to the first provider function one of whose result groups holds the
+   struct type - that group gains them; no provider before it provides the struct type, nothing else in the list changes *)
+Theorem C02_bound_struct_interface_joins_the_source : forall t ex l l', give t ex l = Some l' ->
+  exists k p, nth_error l k = Some p /\ Gen.isstruct p = false /\ existsb (has_type t) (Gen.provides p) = true /\
+              (forall j q, j < k -> nth_error l j = Some q -> Gen.isstruct q = true \/ existsb (has_type t) (Gen.provides q) = false) /\
+              nth_error l' k = Some (add_to_group t ex p) /\ (forall j, j <> k -> nth_error l' j = nth_error l j).
+Proof. exact give_spec. Qed.
+Print Assumptions C02_bound_struct_interface_joins_the_source.
